@@ -208,7 +208,7 @@ func replayEpoch(o mOpts, ops []wOp) ([]byte, error) {
 	for _, op := range ops {
 		switch op.Op {
 		case "write":
-			if _, err := w.Write(opData(op.N, op.Seed)); err != nil {
+			if _, err := writeScribbled(w, opData(op.N, op.Seed)); err != nil {
 				return nil, err
 			}
 		case "readfrom":
@@ -276,7 +276,7 @@ func (r *wRun) run(c c17WCase) {
 			}
 		case "write":
 			data := opData(op.N, op.Seed)
-			n, err := w.Write(data)
+			n, err := writeScribbled(w, data)
 			switch state {
 			case wsFresh, wsOpen:
 				if err != nil || n != len(data) {
@@ -511,7 +511,46 @@ func drawOptDelta(t *rapid.T) *optDelta {
 
 var c17WriteLens = []int{0, 1, 5, 100, 65535, 65536, 65537, 70000, 200000}
 
+// drawC17WEpochs draws a history made of complete epochs (optional Apply of an option subset, a few writes,
+// Close, Reset): what one epoch leaves behind in the object (legacy mode, block size, size, flags, pipeline) is
+// what the next ones run on.
+func drawC17WEpochs(t *rapid.T) c17WCase {
+	var c c17WCase
+	k := rapid.IntRange(2, 6).Draw(t, "nepochs")
+	for e := 0; e < k; e++ {
+		if rapid.IntRange(0, 9).Draw(t, "apply?") < 6 {
+			d := &optDelta{}
+			if rapid.Bool().Draw(t, "e.legacy?") {
+				d.Legacy = bp(rapid.Bool().Draw(t, "e.legacy"))
+			}
+			if rapid.IntRange(0, 3).Draw(t, "e.bs?") == 0 {
+				d.BS = ip(rapid.SampledFrom([]int{4, 5, 7}).Draw(t, "e.bs"))
+			}
+			if rapid.IntRange(0, 3).Draw(t, "e.more?") == 0 {
+				m := drawOptDelta(t)
+				if d.Legacy == nil {
+					d.Legacy = m.Legacy
+				}
+				d.BlockSum, d.ContentSum, d.Size, d.Conc, d.Level = m.BlockSum, m.ContentSum, m.Size, m.Conc, m.Level
+			}
+			c.Ops = append(c.Ops, wOp{Op: "apply", Set: d})
+		}
+		for w := rapid.IntRange(0, 2).Draw(t, "nwrites"); w > 0; w-- {
+			c.Ops = append(c.Ops, wOp{Op: "write", N: rapid.SampledFrom([]int{0, 5, 100, 70000}).Draw(t, "n"), Seed: rapid.Uint64Range(0, 1000).Draw(t, "seed")})
+		}
+		if rapid.IntRange(0, 9).Draw(t, "close?") != 0 {
+			c.Ops = append(c.Ops, wOp{Op: "close"})
+		}
+		c.Ops = append(c.Ops, wOp{Op: "reset"})
+	}
+	c.Ops = append(c.Ops, wOp{Op: "write", N: 9, Seed: 3}, wOp{Op: "close"})
+	return c
+}
+
 func drawC17W(t *rapid.T) c17WCase {
+	if rapid.IntRange(0, 2).Draw(t, "mode") == 0 {
+		return drawC17WEpochs(t)
+	}
 	var c c17WCase
 	n := rapid.IntRange(1, pick(14, 40)).Draw(t, "nops")
 	state := wsFresh
